@@ -38,7 +38,8 @@ def parseHeader (toks : List String) : Nat × Cfg :=
     | some "-" | none => []
     | some s => s.splitOn ","
   let mods := (kv "mods").getD "vod"
-  (idx, { flags, vikja := mods.contains 'v', odal := mods.contains 'o', dagaz := mods.contains 'd' })
+  let rcap := ((kv "rcap").bind String.toNat?).getD 128
+  (idx, { flags, vikja := mods.contains 'v', odal := mods.contains 'o', dagaz := mods.contains 'd', rcap })
 
 def parseEvent (toks : List String) : Option IEv :=
   match toks with
@@ -148,7 +149,7 @@ def processBlock (h : Hist) (b : Block) (outcome : Outcome) : Hist :=
 def finishHist (h : Hist) : IO Unit := do
   match h.diff with
   | none => IO.println s!"R {h.idx} ok events={h.nEvents} deliveries={h.nDeliv}"
-  | some d => IO.println s!"R {h.idx} diff {d}"
+  | some d => IO.println s!"R {h.idx} diff {(d.replace "\n" " ")}"
   for v in Spec.runMonitors h.cfg h.steps.toList do
     IO.println s!"M {h.idx} {v.prop} {v.cause} event={v.event} :: {v.detail}"
 
